@@ -1,11 +1,35 @@
 (** C10 — Every model and array survives every serialisation encoding.
-    Property theorems only; proofs are in Proofs/Serial.v (and Proofs/Results.v for the reshape rules).
-    Model: Model/Serial.v; marker keys, rank threshold and choice tables in Gen/SuffixMaps.v are
+    Property theorems only; proofs are in Proofs/Serial.v, Proofs/SerialInst.v, Proofs/SerialOptions.v (and
+    Proofs/Results.v for the reshape rules).
+    Models: Model/Serial.v, Model/SerialInst.v; marker keys, rank threshold and choice tables in Gen/SuffixMaps.v are
     regenerated from util/serialization.py, models/basemodels.py, models/molecule.py on every run.
-    The json / msgpack wire codecs are trusted libraries (their effect on a plain tree is [normalise]). *)
+    The json / msgpack wire codecs are trusted libraries (their effect on a plain tree is [normalise]).
+
+    CLAUSE MAP (statement of C10 in properties.jsonl, clause by clause -> theorems below)
+    1. "serialising any model instance with any of the 4 encodings and parsing it back yields an equal instance
+        (same field values, array shapes restored, same molecule hash)"
+           C10_model_roundtrip_enc (all four encodings, any schema of Array / Any / nested model / list fields, any
+           depth; numpy's element conversion is a section variable with its specification, evaluated on the real
+           numpy by the correspondence), C10_flat_then_reshape_restores (the shape-restoring step)             [full]
+           x include / exclude options: C10_include_exclude_roundtrip                                         [full]
+           "same molecule hash": the hash is a function of the field values (C11); equal instance => equal hash;
+           checked on the implementation by the oracle only.
+    2. "serialising that again gives the identical payload"
+           C10_reserialisation_identical (ser (normalise m) = ser m), C10_reserialise_parsed_instance (directly
+           on what parse returned)                                                                            [full]
+    3. "-ext encodings: a raw array of any dtype, byte order, shape of rank >= 1 (empty, non-contiguous) nested
+        anywhere comes back with the same dtype, shape and bytes"
+           C10_ext_array_roundtrip, C10_ext_tree_roundtrip (any depth), C10_codecs_ok (both codecs, hex/fromhex),
+           C10_rank0_decays; hypothesis no `_nd_` user key: C10_nd_key_hypothesis_needed (refuted without it)  [full
+           for arrays given as (dtype.str, shape, C-order bytes): byte order is part of dtype.str; a non-contiguous
+           array enters the model through numpy's ascontiguousarray().tobytes(), which is trusted and exercised by
+           the correspondence over {C, F, strided, reversed, byte-swapped}]
+    4. "the automatic encoding choice and the file-suffix choice pick a decoder that reads what the writer wrote"
+           C10_auto_choice_consistent (finite, over the generated tables: parse_raw auto, parse_file suffixes,
+           Molecule.to_file/from_file suffixes and dtypes, file modes, cross to_file -> parse_file)            [full] *)
 From Coq Require Import ZArith List String Bool.
 Require Import QV.Common.Outcome QV.Gen.SuffixMaps QV.Model.Results QV.Model.Serial QV.Model.SerialInst QV.Proofs.Results
-  QV.Proofs.Serial QV.Proofs.SerialInst.
+  QV.Proofs.Serial QV.Proofs.SerialInst QV.Proofs.SerialOptions.
 Import ListNotations.
 Local Open Scope string_scope.
 Local Open Scope list_scope.
@@ -85,6 +109,45 @@ Theorem C10_reserialisation_identical : forall elems sc,
   /\ (forall c m, ser_ext sc c (normalise m) = ser_ext sc c m).
 Proof. intros elems sc. split; [apply reser_flat|intros c m; apply reser_ext]. Qed.
 
+(** ... stated directly on what parse returned: if the serialised valid instance parses to m', then serialising m'
+    gives the payload of m, in all four encodings. *)
+Theorem C10_reserialise_parsed_instance : forall elems of_elems sc,
+  (forall a, wf_arrb a = true -> of_elems (dt a) (elems a) = data a) ->
+  (forall a, wf_arrb a = true -> zlen (elems a) = prodz (shape a)) ->
+  (forall a, Forall (fun x => is_leaf x = true) (elems a)) ->
+  (forall m s m', conforms true s m = true -> parse_flat of_elems s (ser_flat elems sc m) = Ok m' ->
+     ser_flat elems sc m' = ser_flat elems sc m)
+  /\ (forall c m s m', codec_ok c -> (k_nd c = KStr "_nd_" \/ k_nd c = KBytes "_nd_") ->
+       conforms false s m = true -> parse_ext of_elems c s (ser_ext sc c m) = Ok m' ->
+       ser_ext sc c m' = ser_ext sc c m).
+Proof.
+  intros elems of_elems sc E1 E2 E3. split.
+  - intros m s m'. apply (reser_after_parse_flat elems of_elems sc E1 E2 E3).
+  - intros c m s m'. apply (reser_after_parse_ext of_elems sc).
+Qed.
+
+(** The include / exclude options (Model.serialize(enc, include=..., exclude=...) = serialize of the dict() tree
+    restricted to a set of top-level keys, ANY restriction [keep]): restricting commutes with serialisation (the
+    other fields of the payload are untouched), and the restricted payload parses back to the restricted instance,
+    in all four encodings. (Fields that the model requires are not part of [schema]: excluding one makes the real
+    parse fail with a validation error; that case is outside this statement and outside the oracle.) *)
+Theorem C10_include_exclude_roundtrip : forall elems of_elems sc,
+  (forall a, wf_arrb a = true -> of_elems (dt a) (elems a) = data a) ->
+  (forall a, wf_arrb a = true -> zlen (elems a) = prodz (shape a)) ->
+  (forall a, Forall (fun x => is_leaf x = true) (elems a)) ->
+  (forall keep d, ser_flat elems sc (restrict keep (VDict d)) = restrict keep (ser_flat elems sc (VDict d)))
+  /\ (forall c keep d, ser_ext sc c (restrict keep (VDict d)) = restrict keep (ser_ext sc c (VDict d)))
+  /\ (forall keep d s, conforms true s (VDict d) = true ->
+       parse_flat of_elems s (restrict keep (ser_flat elems sc (VDict d))) = Ok (normalise (restrict keep (VDict d))))
+  /\ (forall keep d s c, codec_ok c -> (k_nd c = KStr "_nd_" \/ k_nd c = KBytes "_nd_") -> conforms false s (VDict d) = true ->
+       parse_ext of_elems c s (restrict keep (ser_ext sc c (VDict d))) = Ok (normalise (restrict keep (VDict d)))).
+Proof.
+  intros elems of_elems sc E1 E2 E3.
+  split; [intros; apply restrict_ser_flat|]. split; [intros; apply restrict_ser_ext|]. split.
+  - intros keep d s. apply (proj1 (restricted_roundtrip elems of_elems sc E1 E2 E3 keep d s)).
+  - intros keep d s c. apply (proj2 (restricted_roundtrip elems of_elems sc E1 E2 E3 keep d s) c).
+Qed.
+
 (** Automatic choices (finite, over the generated tables): for str / bytes input parse_raw picks an
     encoding whose writer produces that type and whose reader reads that writer; every parse_file suffix
     and every Molecule.to_file/from_file suffix pairs a writer with a reader of the same wire family that
@@ -135,6 +198,13 @@ Definition ex_instance : value :=
 Example C10_ex_instance_conforms : conforms true ex_schema ex_instance = true /\ conforms false ex_schema ex_instance = true.
 Proof. split; vm_compute; reflexivity. Qed.
 
+Example C10_ex_exclude :
+  restrict (excluding ["extras"; "geometry"]) ex_instance
+  = VDict [(KStr "symbols", VList [VStr "He"; VStr "He"]);
+           (KStr "atomic_numbers", VArr {| dt := "<i2"; shape := [2]; data := "2020" |})]
+  /\ restrict (including ["symbols"]) ex_instance = VDict [(KStr "symbols", VList [VStr "He"; VStr "He"])].
+Proof. split; vm_compute; reflexivity. Qed.
+
 Print Assumptions C10_codecs_ok.
 Print Assumptions C10_ext_array_roundtrip.
 Print Assumptions C10_ext_tree_roundtrip.
@@ -143,4 +213,6 @@ Print Assumptions C10_rank0_decays.
 Print Assumptions C10_flat_then_reshape_restores.
 Print Assumptions C10_model_roundtrip_enc.
 Print Assumptions C10_reserialisation_identical.
+Print Assumptions C10_reserialise_parsed_instance.
+Print Assumptions C10_include_exclude_roundtrip.
 Print Assumptions C10_auto_choice_consistent.
